@@ -263,9 +263,9 @@ func runPairDialerSecond(c *Ctx) {
 // C02, C11 — several goroutines Send on one idle PUSH socket at the same instant, a PULL peer connected and reading:
 // every accepted message must arrive (a wake-up of the sender lost in the race leaves them in the queue).
 func runPushBurst(c *Ctx) {
-	rounds := 120
+	rounds := 600
 	if c.Thorough() {
-		rounds = 600
+		rounds = 3000
 	}
 	for _, trn := range []string{"inproc", "tcp"} {
 		tr := transportNamed(trn)
